@@ -37,7 +37,9 @@ func (f *Float) SubtractFromFloat(num uint) error {
 	// Convert the float to a string
 	strValue := strconv.FormatFloat(f.Value, 'f', -1, 64)
 
-	if !strings.Contains(strValue, ".") {
+	// the decimal string arithmetic below only works when the
+	// integer part stays non-negative
+	if !strings.Contains(strValue, ".") || f.Value < float64(num) {
 		f.Value -= float64(num)
 		return nil
 	}
